@@ -19,6 +19,20 @@ EXHAUSTIVE = {"quick": False, "thorough": False}
 
 
 @st.composite
+def _mixed_magnitude(draw):
+    """tactic 4 only (pure substitution, exact arithmetic, no LP): coefficients 1e-4..1e-3 next to 1e5..1e6 in one term"""
+    eps = draw(st.sampled_from([1e-4, 1e-3, 5e-4]))
+    big = draw(st.sampled_from([1e5, 1e6, 2.5e5]))
+    sg = draw(st.sampled_from([1, -1]))
+    c = float(draw(st.integers(-3, 3)))
+    term = [{"x": draw(st.sampled_from([1, -1])) * eps, "y": float(sg)}, c]
+    ctx = [[{"y": float(sg), "u": -big * draw(st.sampled_from([1, -1]))}, float(draw(st.integers(0, 2)))]]
+    if draw(st.booleans()):
+        ctx.append([{"z": 1.0, "x": 1.0}, 5.0])
+    return {"terms": [term], "ctx": ctx, "elim": ["y"], "refine": True, "simplify": False, "order": [4], "shape": "mixed-magnitude"}
+
+
+@st.composite
 def _kaykobad(draw):
     """one term with 2-4 eliminated variables and a context shaped like a Kaykobad system: per eliminated variable a row with a
     dominant same-sign (refine) / opposite-sign (relax) diagonal entry, small off-diagonal entries, and kept variables"""
@@ -56,6 +70,8 @@ def _kaykobad(draw):
 def _case(draw, shapes=("random", "random", "elimonly", "chain", "bounds", "bounds", "degenerate"), kay=True):
     if kay and draw(st.integers(0, 5)) == 0:
         return draw(_kaykobad())
+    if kay and draw(st.integers(0, 24)) == 0:
+        return draw(_mixed_magnitude())
     nv = draw(st.integers(2, 6))
     pool = gens.NAMES[:nv]
     shape = draw(st.sampled_from(list(shapes)))
